@@ -29,17 +29,18 @@ def scenario_frames(case):
         a = ADDRS[i % len(ADDRS)]
         lat, lon = F.destination(rx[0], rx[1], ac["bearing"], ac["km"])
         fs = []
+        df = 18 if ac.get("df18") else 17  # TIS-B / ADS-R / non-transponder carrier
         if ac.get("callsign"):
-            fs.append(F.ident(a, ac["callsign"]))
+            fs.append(F.ident(a, ac["callsign"], df=df))
         if ac.get("position", True):
             alt = 1000 + 25 * ac.get("alt", 100)
             # a climbing / descending aircraft: the odd report carries another altitude
-            fs.append(F.position(a, lat, lon, 0, alt_ft=alt))
-            fs.append(F.position(a, lat, lon, 1, alt_ft=max(alt + 25 * ac.get("climb", 0), -975)))
+            fs.append(F.position(a, lat, lon, 0, alt_ft=alt, df=df))
+            fs.append(F.position(a, lat, lon, 1, alt_ft=max(alt + 25 * ac.get("climb", 0), -975), df=df))
         if ac.get("velocity"):
-            fs.append(F.velocity(a, ac["velocity"][0], ac["velocity"][1], 64 * (i % 5)))
+            fs.append(F.velocity(a, ac["velocity"][0], ac["velocity"][1], 64 * (i % 5), df=df))
         for _ in range(ac.get("extra", 0)):
-            fs.append(F.ident(a, ac.get("callsign") or "X"))
+            fs.append(F.ident(a, ac.get("callsign") or "X", df=df))
         out.append((i, fs, (lat, lon)))
     return rx, out
 
@@ -205,8 +206,29 @@ def run_case(case):
         opts.append("--disable-icao")
     if case.get("scale"):
         opts.append(f"--scale={case['scale']}")
-    s = RadarSession("c18", rows=ROWS, cols=COLS, lat=rx[0], lon=rx[1], opts=opts)
+    gps = case.get("gpsd")
+    gpsd = None
+    start = rx
+    if gps:
+        # the receiver position comes from a GPS: radar starts with another --lat/--long and is
+        # told the real position (via one intermediate fix) by a gpsd server before any traffic
+        from feed import FakeGpsd
+        start = F.destination(rx[0], rx[1], gps["bearing"], gps["km"])
+        gpsd = FakeGpsd()
+        gpsd.start()
+        opts += ["--gpsd", "--gpsd-ip", gpsd.ip]
+    s = RadarSession("c18", rows=ROWS, cols=COLS, lat=start[0], lon=start[1], opts=opts)
     try:
+        if gpsd:
+            if not gpsd.ready.wait(10.0):
+                raise Inconclusive("radar did not complete the gpsd handshake")
+            mid = F.destination(rx[0], rx[1], gps["bearing"], gps["km"] / 2.0)
+            gpsd.report(mid[0], mid[1])
+            time.sleep(0.3)
+            gpsd.report(rx[0], rx[1])
+            if not s.wait_for(lambda: s.log_text().count("[gpsd] lat:") >= 2, 8.0):
+                raise Inconclusive("the gpsd fixes were not received")
+            time.sleep(0.4)
         all_frames = []
         markers = {}
         seen_blue = set()
@@ -433,6 +455,8 @@ def run_case(case):
             fails.append(("C18/terminated", f"radar terminated: {s.stderr()[-300:]}"))
     finally:
         s.close()
+        if gpsd:
+            gpsd.close()
     return fails
 
 
@@ -450,6 +474,10 @@ def classify(case):
         cls.append("labels on")
     if any(not ac.get("position", True) for ac in case["aircraft"]):
         cls.append("aircraft without position")
+    if case.get("gpsd"):
+        cls.append("receiver position from gpsd")
+    if any(ac.get("df18") for ac in case["aircraft"]):
+        cls.append("aircraft heard via DF18")
     return cls, (len(quad) >= 2 and bool(case.get("view")))
 
 
@@ -465,6 +493,7 @@ def worker(args):
         "climb": st.sampled_from([0, 0, 1, -1, 40, -40, 400]),
         "velocity": st.one_of(st.none(), st.tuples(st.integers(-400, 400), st.integers(-400, 400))),
         "extra": st.integers(0, 3),
+        "df18": st.sampled_from([False, False, False, True]),
     })
     view = st.one_of(
         st.tuples(st.just("zoom"), st.sampled_from([-6, -3, -1, 1, 2, 4])),
@@ -479,10 +508,13 @@ def worker(args):
         "scale": st.sampled_from([None, None, 0.12, 0.2, 0.06]),
         "view": st.lists(view, max_size=3),
         "post_view": st.booleans(),
+        "gpsd": st.one_of(st.none(), st.none(), st.none(), st.fixed_dictionaries({"bearing": st.sampled_from([0.0, 90.0, 200.0, 315.0]), "km": st.sampled_from([15.0, 40.0, 90.0])})),
     })
 
     expiry_s = st.fixed_dictionaries({"expiry_case": st.just(True), "rx": st.integers(0, len(RXS) - 1), "n1": st.integers(0, 3), "keep": st.lists(st.integers(0, 4), min_size=1, max_size=3), "n2": st.integers(0, 3), "back": st.lists(st.integers(0, 4), max_size=3)})
-    case_s = st.one_of(case_s, case_s, case_s, case_s, case_s, case_s, expiry_s)
+    # (one_of over strategies of very different size favours the small one: pick the kind explicitly)
+    reg_s = case_s
+    case_s = st.sampled_from([0, 1, 2, 3, 4, 5, 6, 7]).flatmap(lambda k: expiry_s if k == 0 else reg_s)
 
     @seed(args.seed * 1000 + 18 * 7 + args.worker)
     @settings(max_examples=args.n, deadline=None, database=None, suppress_health_check=list(HealthCheck), phases=[Phase.generate, Phase.shrink], report_multiple_bugs=False)
@@ -544,7 +576,7 @@ def main():
     per = 9 if tier == "quick" else 250
     rc = pbt.run_parallel(
         PID, os.path.abspath(__file__), tier, 12, per, "exploration",
-        "Hypothesis-generated scenarios: 1-8 aircraft placed by bearing/distance around one of five receiver sites (all quadrants, the axes, the receiver position itself), with or without callsign / position / velocity / extra frames, frames built by a reference CPR encoder and fed over TCP to the radar binary on a 50x160 pty; the terminal output is parsed by a VT emulator. Oracle: Airplanes tab rows == tracker records computed by the real library from the same frames (address, callsign, lat/lon/distance to 3 decimals, altitude, message count; blank until a position exists; titles count the tracked aircraft); Stats totals == number of newly-added events / largest simultaneous count; Map: axes cross at the canvas centre, each marker on the correct side of the centre, offsets proportional (scale calibrated from the farthest marker, +-1.6 cells); view controls (zoom keys, scroll, pan keys, drag) leave both tables unchanged, zoom scales offsets by 1.1^n, a horizontal pan moves all markers by one vector, Enter restores the map cell for cell. non-trivial = aircraft in >= 2 quadrants and >= 1 view control; distinct by hash of the case",
+        "Hypothesis-generated scenarios: 1-8 aircraft placed by bearing/distance around one of five receiver sites (all quadrants, the axes, the receiver position itself), with or without callsign / position / velocity / extra frames, as DF17 or DF18, optionally with the receiver position delivered by a gpsd server after start, frames built by a reference CPR encoder and fed over TCP to the radar binary on a 50x160 pty; the terminal output is parsed by a VT emulator. Oracle: Airplanes tab rows == tracker records computed by the real library from the same frames (address, callsign, lat/lon/distance to 3 decimals, altitude, message count; blank until a position exists; titles count the tracked aircraft); Stats totals == number of newly-added events / largest simultaneous count; Map: axes cross at the canvas centre, each marker on the correct side of the centre, offsets proportional (scale calibrated from the farthest marker, +-1.6 cells); view controls (zoom keys, scroll, pan keys, drag) leave both tables unchanged, zoom scales offsets by 1.1^n, a horizontal pan moves all markers by one vector, Enter restores the map cell for cell. non-trivial = aircraft in >= 2 quadrants and >= 1 view control; distinct by hash of the case",
         ["markers are identified as cells with the blue foreground colour with --disable-heading --disable-track (and --disable-icao in half of the cases so that labels cannot overwrite markers)", "expected table contents come from rsadsb_common run on the same frames (vcheck helper trackdump): the client is checked as a faithful front end"],
         a.seed,
         regress_one=run_case,
